@@ -139,7 +139,8 @@ class Judge:
             tol = 0.25 if req.get('fee_mode') != 'explicit' else 0.0
             lo, hi = fmin * (1 - tol), fmax * (1 + tol)
             if req.get('fee_mode') == 'explicit':
-                lo, hi = fmin / 2.5, fmax * 2.5    # explicit fees were chosen >=3x inside or outside
+                # the library applies the limits to the rate over its size estimate; the real size may differ
+                lo, hi = fmin / 1.35, fmax * 1.35
             if (rate < lo or rate > hi) and not label.startswith('bumpfee'):
                 # narrow: a named fee ('low'/'normal'/'high') is computed from the size estimate *before* inputs are
                 # selected; with >= 2 inputs the real rate then falls below the minimum
@@ -159,14 +160,14 @@ def judge_refusal(col, ctx, case, req, label, exc, state_before, state_after):
                       {'before': state_before[0], 'after': state_after[0]}, 'unchanged wallet')
 
 
-def wallet_state(w, col=None, ctx=None):
+def wallet_state(w, col=None, ctx=None, network=None):
     """(balance, sorted utxos).  Observed on the pinned tree: after a refused request the operating handle's utxos()
     can raise AttributeError("'DbTransactionOutput' object has no attribute '_sa_instance_state'") from SQLAlchemy's
     identity map until the next wallet operation.  An exception while *reading* is not a wrong report (outside the
     statement), so the state is then read through a freshly opened handle and the event is counted in the evidence."""
     def read(h):
-        ut = sorted((u['txid'], u['output_n'], u['value']) for u in h.utxos())
-        return (int(h.balance()), ut)
+        ut = sorted((u['txid'], u['output_n'], u['value']) for u in h.utxos(network=network))
+        return (int(h.balance(network=network)), ut)
     try:
         return read(w)
     except Exception as e:
@@ -230,12 +231,14 @@ def make_request(rnd, ctx, J, CH):
         fm = rnd.choice(['auto', 'auto', 'explicit', 'per_kb'])
     if kind == 'over':
         fm = 'auto'
+    elif getattr(ctx, 'second_network', False) and kind in ('send', 'send_to', 'create_inputs') and rnd.random() < 0.6:
+        fm = rnd.choice(['explicit_bad', 'explicit_bad', 'explicit'])   # the limits that apply are those of the transaction's network
     req['fee_mode'] = 'explicit' if fm.startswith('explicit') else fm
     est_vsize = 0.25 + 0.12 * min(len(spendable), 3)   # kvB, rough: only used to pick a clearly-in / clearly-out explicit fee
     if fm == 'explicit':
         req['fee'] = int(rnd.choice([fmin * 4, fmin * 10, fmax / 6.0]) * est_vsize)
     elif fm == 'explicit_bad':
-        req['fee'] = int(rnd.choice([fmin / 8.0 * est_vsize, fmax * 12 * est_vsize]))
+        req['fee'] = int(rnd.choice([fmin / 8.0, fmin / 3.0, fmin / 1.7, fmax * 1.7, fmax * 3, fmax * 12]) * est_vsize)
         req['expect_refusal'] = 'fee-limit'
     elif fm in ('low', 'normal', 'high'):
         req['fee'] = fm
@@ -267,7 +270,7 @@ def make_request(rnd, ctx, J, CH):
         req['replace_by_fee'] = True
     if kind in ('send', 'send_to') and rnd.random() < 0.15:
         req['random_output_order'] = False
-    if kind == 'send' and ctx.kind != 'single' and len(J.accounts) == 1 and rnd.random() < 0.15 and spendable:
+    if kind == 'send' and ctx.kind != 'single' and len(J.accounts) == 1 and not getattr(ctx, 'second_network', False) and rnd.random() < 0.15 and spendable:
         # inputs restricted to the outputs of one or two payment keys
         held = sorted({ctx.own_scripts(0).get(u['script'], (0, 0))[1] for u in spendable.values() if u['script'] in ctx.own_scripts(0)})
         if held:
@@ -303,6 +306,8 @@ def execute(req, ctx):
     kw = dict(min_confirms=req['min_confirms'], broadcast=req['broadcast'])
     if req.get('account_id') is not None:
         kw['account_id'] = req['account_id']
+    if req.get('network'):
+        kw['network'] = req['network']
     priv = ctx.extra_priv or None
     k = req['kind']
     opt = {}
@@ -318,7 +323,7 @@ def execute(req, ctx):
         return w.send(out_arr, fee=fee, priv_keys=priv, number_of_change_outputs=req['n_change'], max_utxos=req.get('max_utxos'), **kw, **opt)
     if k == 'create_inputs':
         t = w.transaction_create(out_arr, input_arr=[tuple(i) for i in req['inputs']], fee=fee, min_confirms=req['min_confirms'],
-                                 number_of_change_outputs=max(1, req['n_change']), account_id=req.get('account_id'))
+                                 number_of_change_outputs=max(1, req['n_change']), account_id=req.get('account_id'), network=req.get('network'))
         t.sign(priv)
         return t
     if k == 'sweep':
@@ -378,6 +383,33 @@ def run_wallet(case, col):
             return
         addrs = addrs + addrs1
 
+    ctxB = JB = None
+    if case.get('net2'):
+        # the same HD wallet also holds keys of a second network whose fee limits differ from the default network's;
+        # requests name the network they are for
+        import copy
+        from vf import wallet_ref
+        B = case['net2']
+        ctxB = copy.copy(ctx)
+        ctxB.network = B
+        ctxB.ref = wallet_ref.SingleRef(wallet_env.seed_bytes('c07-%s' % case['wseed']), B, wt)
+        ctxB._own = {}
+        ctxB.second_network = True
+        try:
+            nkB = rnd.randint(1, 4)
+            haveB = [k.address for k in w.get_keys(network=B, number_of_keys=nkB)]
+        except Exception as e:
+            col.violation(None, 'get_keys(network=%s) raised %r' % (B, e), case, repr(e), None)
+            return
+        addrsB = [ctxB.ref_address(0, i) for i in range(nkB)]
+        if sorted(haveB) != sorted(addrsB):
+            col.violation(None, 'payment addresses on the second network differ from the reference derivation (see C09)', case, haveB[:3], addrsB[:3])
+            return
+        scaleB = 100000 if B.startswith('dogecoin') else 1
+        for j in range(rnd.randint(2, 6)):
+            CH.fund(rnd.choice(addrsB), rnd.choice([10 ** 5, 10 ** 6, 10 ** 7 + j, rnd.randrange(2000, 10 ** 7)]) * scaleB, B, confirmed=rnd.random() < 0.8)
+        JB = Judge(col, ctxB, CH, case)
+
     def refresh():
         if n_acc > 1:
             for acc in range(n_acc):
@@ -413,16 +445,23 @@ def run_wallet(case, col):
     except Exception as e:
         col.violation(None, 'utxos_update raised %r' % (e,), case, repr(e), None)
         return
+    ctxA, JA = ctx, J
     for step in range(case['n_req']):
         CH.snapshot()
+        ctx, J = ctxA, JA
+        if ctxB is not None and rnd.random() < 0.5:
+            ctx, J = ctxB, JB
+        network = ctx.network
         req = make_request(rnd, ctx, J, CH)
+        if ctx is ctxB:
+            req['network'] = ctxB.network
         if case.get('depth_scenario'):
             req = depth_request(rnd, ctx, J, req)
         label = '%s/%s' % (req['kind'], req['fee_mode'])
         before_unspent = J.wallet_unspent(req['min_confirms'])
         before_all = J.wallet_unspent(0)
         bal_spendable = sum(u['value'] for u in before_unspent.values())
-        state0 = wallet_state(w, col, ctx)
+        state0 = wallet_state(w, col, ctx, req.get('network'))
         nb = len(CH.broadcasts)
         t = None
         exc = None
@@ -488,7 +527,7 @@ def run_wallet(case, col):
                     col.case('bumpfee/%s/%s/%s/refused' % (kind, wt, mode), nontrivial=('bumpfee', kind, wt, mode, 'refused', type(e).__name__))
         else:
             # a refusal: legitimate for insufficient funds / fee limits / dust; the wallet must be unchanged
-            state1 = wallet_state(w, col, ctx)
+            state1 = wallet_state(w, col, ctx, req.get('network'))
             new_b = CH.broadcasts[nb:]
             rejected = [b for b in new_b if not b['accepted']]
             if rejected:
@@ -569,8 +608,14 @@ def run_shard(spec, col):
         wt = rnd.choice(['legacy', 'p2sh-segwit', 'segwit']) if not network.startswith('dogecoin') else 'legacy'
         case = {'wseed': '%d-%d-%d' % (spec['seed'], spec['shard'], k), 'kind': kind, 'wt': wt, 'network': network,
                 'n_utxo': rnd.choice([1, 2, 3, 5, 8, 12, 40 if k % 7 == 0 else 6]), 'n_req': spec['n_req']}
-        if kind == 'hd' and rnd.random() < 0.35:
+        r2 = rnd.random()
+        if kind == 'hd' and r2 < 0.3:
             case['accounts'] = 2
+        elif kind == 'hd' and r2 < 0.6:
+            other = {'testnet': ['bitcoin', 'litecoin'], 'dogecoin': ['bitcoin', 'litecoin']}.get(network, ['dogecoin', 'testnet'])
+            case['net2'] = rnd.choice(other)
+            if 'dogecoin' in (network, case['net2']):
+                case['wt'] = wt = 'legacy'
         run_wallet(case, col)
     for k in range(spec.get('n_depth', 1)):
         network = rnd.choice(NETWORKS)
